@@ -25,6 +25,15 @@ def dense_family():
     out.append(("dense.h", header42.header_text("dense.h") + "\n#ifndef dense_h\n#define dense_h\nint f();\n#endif\nint x;\n"))
     out.append(("dense.c", h + "int\tmain(void)\n{\n\tchar\tc;\n\n\tc = 'a\n\treturn (0);\n}\n"))
     out.append(("dense.c", h + "int\tmain(void)\n{\n\treturn (1.5e+ + 0x1e+5 + 09 + 0b2 + 1..2);\n}\n"))
+    # characters that start no token as the very first character of the file (a byte-order mark above all), of a line,
+    # after a tab: the BAD_LEXEME diagnostic must still carry a position inside the file
+    func = "int\tmain(void)\n{\n\treturn (0);\n}\n"
+    for ch in ("\ufeff", "@", "\u00e9", "\x7f"):
+        out.append(("dense.c", ch + func))
+        out.append(("dense.c", ch + h + func))
+        out.append(("dense.c", h + ch + func))
+        out.append(("dense.c", h + func + ch))
+        out.append(("dense.c", h + func.replace("\treturn", "\t" + ch + "return")))
     # characters that some line-splitting routines take for line breaks (form feed, vertical tab, FS/GS/RS, NEL, LS, PS)
     # inside comments and strings, before an over-long line close to the end of the file
     for ch in ("\f", "\v", "\x1c", "\x1d", "\x1e", "\x85", "\u2028", "\u2029", "\r"):
